@@ -24,10 +24,22 @@ pub struct Cfg {
 	pub gran: Gran,
 	/// stop at the first violation of this program
 	pub stop_at_first: bool,
+	/// breadth-first (every execution takes exactly one new transition): depth caps are then exact
+	#[serde(default)]
+	pub bfs: bool,
+	/// do not expand states deeper than this (0 = no cap)
+	#[serde(default)]
+	pub depth_cap: usize,
+	/// menu searches contain legitimately stuck threads (leaked guards): do not report deadlocks
+	#[serde(default)]
+	pub no_deadlock_report: bool,
+	/// violations of these properties end the path; others are recorded and exploration continues (empty = all end the path)
+	#[serde(default)]
+	pub verdict_props: Vec<String>,
 }
 impl Default for Cfg {
 	fn default() -> Self {
-		Cfg { max_preemptions: None, retry_rounds: 2, horizon: 400, state_cap: 5_000_000, gran: Gran::RawOp, stop_at_first: true }
+		Cfg { max_preemptions: None, retry_rounds: 2, horizon: 400, state_cap: 5_000_000, gran: Gran::RawOp, stop_at_first: true, bfs: false, depth_cap: 0, no_deadlock_report: false, verdict_props: vec![] }
 	}
 }
 
@@ -45,6 +57,7 @@ pub struct Stats {
 	pub distinct_outcomes: usize,
 	pub env_retry_cut: u64,
 	pub cap_hit: bool,
+	pub depth_cap_hits: u64,
 }
 impl Stats {
 	pub fn add(&mut self, o: &Stats) {
@@ -60,6 +73,7 @@ impl Stats {
 		self.distinct_outcomes += o.distinct_outcomes;
 		self.env_retry_cut += o.env_retry_cut;
 		self.cap_hit |= o.cap_hit;
+		self.depth_cap_hits += o.depth_cap_hits;
 	}
 }
 
@@ -126,6 +140,9 @@ fn snapshot(g: &Inner, targets: &[Target<'_>], arena: &Arena, cfg: &Cfg) -> Snap
 			Some(Pending::Start) => parts.push(3 << 32),
 			Some(Pending::Menu(a)) => {
 				parts.push(4 << 32 | a.len() as u64);
+				for x in a {
+					parts.push(*x as u64);
+				}
 			}
 			None => parts.push(0),
 		}
@@ -173,6 +190,12 @@ fn snapshot(g: &Inner, targets: &[Target<'_>], arena: &Arena, cfg: &Cfg) -> Snap
 		}
 	}
 	parts.push(pf);
+	for l in &g.leaked {
+		parts.push(0x1ea0000 | *l as u64);
+	}
+	for (k, v) in &g.pmodel {
+		parts.push(0x9000000 | (*k as u64) << 8 | *v as u64);
+	}
 	if cfg.max_preemptions.is_some() {
 		parts.push(g.preemptions as u64);
 		parts.push(g.last.map(|l| l as u64 + 1).unwrap_or(0));
@@ -216,7 +239,7 @@ pub struct Search<'p> {
 	pub outcomes: HashSet<u64>,
 	pub stats: Stats,
 	pub found: Vec<Found>,
-	pub work: Vec<Vec<(u8, u16)>>,
+	pub work: std::collections::VecDeque<Vec<(u8, u16)>>,
 	pub sample: Vec<(u8, u16)>,
 	pub hook: Option<&'p StateHook>,
 	pub error: Option<String>,
@@ -230,7 +253,7 @@ pub struct Search<'p> {
 
 impl<'p> Search<'p> {
 	pub fn new(prog: &'p Program, cfg: &'p Cfg, hook: Option<&'p StateHook>) -> Self {
-		Search { prog, cfg, seen: HashSet::new(), outcomes: HashSet::new(), stats: Stats::default(), found: vec![], work: vec![vec![]], sample: vec![], hook, error: None, prefix: vec![], pos: 0, path: vec![], completing: false, completion_points: 0 }
+		Search { prog, cfg, seen: HashSet::new(), outcomes: HashSet::new(), stats: Stats::default(), found: vec![], work: std::collections::VecDeque::from(vec![vec![]]), sample: vec![], hook, error: None, prefix: vec![], pos: 0, path: vec![], completing: false, completion_points: 0 }
 	}
 
 	/// The scheduling decision at a quiescent point of the current execution.
@@ -260,12 +283,18 @@ impl<'p> Search<'p> {
 			snap.violations.extend(h(g, targets));
 		}
 		if !snap.violations.is_empty() {
+			let mut cut = false;
 			for v in snap.violations {
+				if cfg.verdict_props.is_empty() || cfg.verdict_props.iter().any(|p| p == v.prop) {
+					cut = true;
+				}
 				if !self.found.iter().any(|f| f.violation.key == v.key && f.violation.prop == v.prop) {
 					self.found.push(Found { violation: v, schedule: self.path.clone() });
 				}
 			}
-			return Decision::Stop;
+			if cut {
+				return Decision::Stop;
+			}
 		}
 		if !self.completing {
 			if !self.seen.insert(snap.key) {
@@ -282,7 +311,9 @@ impl<'p> Search<'p> {
 		}
 		self.stats.max_depth = self.stats.max_depth.max(self.path.len());
 		if snap.enabled.is_empty() {
-			if !snap.all_finished {
+			if !snap.all_finished && cfg.no_deadlock_report {
+				self.stats.terminal += 1;
+			} else if !snap.all_finished {
 				self.found.push(Found {
 					violation: Violation { prop: "C01", key: format!("deadlock|{}", self.prog.name), detail: format!("no thread is enabled but some are unfinished: {}", snap.unfinished.join("; ")) },
 					schedule: self.path.clone(),
@@ -321,6 +352,18 @@ impl<'p> Search<'p> {
 			}
 			return Decision::Run(c.0 as usize, c.1);
 		}
+		if cfg.depth_cap > 0 && self.path.len() >= cfg.depth_cap {
+			self.stats.depth_cap_hits += 1;
+			return Decision::Stop;
+		}
+		if cfg.bfs {
+			for c in snap.enabled.iter() {
+				let mut p = self.path.clone();
+				p.push(*c);
+				self.work.push_back(p);
+			}
+			return Decision::Stop;
+		}
 		// alternatives
 		for c in snap.enabled.iter().skip(1) {
 			if let Some(b) = cfg.max_preemptions {
@@ -331,7 +374,7 @@ impl<'p> Search<'p> {
 			}
 			let mut p = self.path.clone();
 			p.push(*c);
-			self.work.push(p);
+			self.work.push_back(p);
 		}
 		let c = snap.enabled[0];
 		if let Some(b) = cfg.max_preemptions {
@@ -355,7 +398,10 @@ impl<'p> Search<'p> {
 		let mut targets: Vec<Target<'_>> = vec![];
 		for s in &prog.specs {
 			match world.build(s) {
-				Some(t) => targets.push(t),
+				Some(mut t) => {
+					t.index = targets.len();
+					targets.push(t)
+				}
 				None => {
 					self.error = Some(format!("target {:?} rejected by its checked constructor", s));
 					return;
@@ -393,7 +439,11 @@ impl<'p> Search<'p> {
 			let e = exec.clone();
 			let steps = &prog.threads[tid];
 			jobs.push(Box::new(move || {
-				rt::run_logical(e, tid, || interp::run_thread(tid, steps, targets_ref));
+				if prog.menu.is_empty() {
+					rt::run_logical(e, tid, || interp::run_thread(tid, steps, targets_ref));
+				} else {
+					rt::run_logical(e, tid, || crate::menu::run_thread(tid, &prog.menu[tid], targets_ref, &prog.specs));
+				}
 			}));
 		}
 		let ok = pool.run(jobs, std::time::Duration::from_secs(30));
@@ -409,7 +459,7 @@ impl<'p> Search<'p> {
 	}
 
 	pub fn run(&mut self, pool: &mut Pool) {
-		while let Some(prefix) = self.work.pop() {
+		while let Some(prefix) = if self.cfg.bfs { self.work.pop_front() } else { self.work.pop_back() } {
 			self.run_one(pool, prefix);
 			if self.error.is_some() {
 				break;
@@ -442,7 +492,9 @@ pub fn replay(prog: &Program, cfg: &Cfg, schedule: &[(u8, u16)]) -> Result<(Vec<
 	let world = World::new(&arena, &store);
 	let mut targets: Vec<Target<'_>> = vec![];
 	for s in &prog.specs {
-		targets.push(world.build(s).ok_or_else(|| format!("target {:?} rejected", s))?);
+		let mut t = world.build(s).ok_or_else(|| format!("target {:?} rejected", s))?;
+		t.index = targets.len();
+		targets.push(t);
 	}
 	let n = prog.threads.len();
 	let exec: Arc<Exec> = Exec::new(cfg.gran, prog.policy, n, world.is_rw.borrow().clone());
@@ -484,7 +536,13 @@ pub fn replay(prog: &Program, cfg: &Cfg, schedule: &[(u8, u16)]) -> Result<(Vec<
 	for tid in 0..n {
 		let e = exec.clone();
 		let steps = &prog.threads[tid];
-		jobs.push(Box::new(move || rt::run_logical(e, tid, || interp::run_thread(tid, steps, targets_ref))));
+		jobs.push(Box::new(move || {
+			if prog.menu.is_empty() {
+				rt::run_logical(e, tid, || interp::run_thread(tid, steps, targets_ref))
+			} else {
+				rt::run_logical(e, tid, || crate::menu::run_thread(tid, &prog.menu[tid], targets_ref, &prog.specs))
+			}
+		}));
 	}
 	let ok = POOL.with(|p| p.borrow_mut().run(jobs, std::time::Duration::from_secs(30)));
 	exec.clear_decider();
@@ -506,4 +564,182 @@ pub fn replay(prog: &Program, cfg: &Cfg, schedule: &[(u8, u16)]) -> Result<(Vec<
 	}
 	lines.extend(final_lines);
 	Ok((lines, g.violations.clone()))
+}
+
+// ------------------------------------------------------------------------------------------
+// Level-synchronous parallel breadth-first search (used for the menu searches, where a single
+// program has a large alphabet): every prefix of the frontier is executed on the real code in
+// parallel, the coordinator merges the reached states in frontier order (deterministic).
+// ------------------------------------------------------------------------------------------
+
+struct ProbeOut {
+	snap: Option<Snap>,
+	error: Option<String>,
+}
+
+fn probe(prog: &Program, cfg: &Cfg, prefix: &[(u8, u16)], hook: Option<&StateHook>) -> ProbeOut {
+	let arena = Arena::new();
+	let store = Store::new();
+	let world = World::new(&arena, &store);
+	let mut targets: Vec<Target<'_>> = vec![];
+	for s in &prog.specs {
+		match world.build(s) {
+			Some(mut t) => {
+				t.index = targets.len();
+				targets.push(t)
+			}
+			None => return ProbeOut { snap: None, error: Some(format!("target {:?} rejected by its checked constructor", s)) },
+		}
+	}
+	let n = prog.threads.len();
+	let exec = Exec::new(cfg.gran, prog.policy, n, world.is_rw.borrow().clone());
+	exec.lock().lock_unit = world.unit.borrow().clone();
+	let targets_ref: &[Target<'_>] = &targets;
+	let arena_ref: &Arena = &arena;
+	let mut pos = 0usize;
+	let mut out = ProbeOut { snap: None, error: None };
+	{
+		struct Ptrs<'a>(*mut usize, *mut ProbeOut, &'a [Target<'a>], &'a Arena, &'a [(u8, u16)], &'a Cfg, Option<&'a StateHook>);
+		unsafe impl Send for Ptrs<'_> {}
+		let ptrs = Ptrs(&mut pos, &mut out, targets_ref, arena_ref, prefix, cfg, hook);
+		exec.set_decider(Box::new(move |g: &mut Inner| {
+			let p = &ptrs;
+			let pos: &mut usize = unsafe { &mut *p.0 };
+			let out: &mut ProbeOut = unsafe { &mut *p.1 };
+			if *pos < p.4.len() {
+				let (t, a) = p.4[*pos];
+				if !g.thread_enabled(t as usize) {
+					out.error = Some(format!("replay divergence at step {} of {:?}: T{} not enabled", *pos, p.4, t));
+					return Decision::Stop;
+				}
+				*pos += 1;
+				return Decision::Run(t as usize, a);
+			}
+			let mut snap = snapshot(g, p.2, p.3, p.5);
+			if let Some(h) = p.6 {
+				snap.violations.extend(h(g, p.2));
+			}
+			if let Some(m) = snap.machinery.clone() {
+				out.error = Some(m);
+			}
+			out.snap = Some(snap);
+			Decision::Stop
+		}));
+	}
+	let mut jobs: Vec<Box<dyn FnOnce() + Send + '_>> = vec![];
+	for tid in 0..n {
+		let e = exec.clone();
+		let steps = &prog.threads[tid];
+		jobs.push(Box::new(move || {
+			if prog.menu.is_empty() {
+				rt::run_logical(e, tid, || interp::run_thread(tid, steps, targets_ref))
+			} else {
+				rt::run_logical(e, tid, || crate::menu::run_thread(tid, &prog.menu[tid], targets_ref, &prog.specs))
+			}
+		}));
+	}
+	let ok = POOL.with(|p| p.borrow_mut().run(jobs, std::time::Duration::from_secs(30)));
+	exec.clear_decider();
+	if !ok {
+		eprintln!("machinery: watchdog: a logical thread did not come back within 30 s in program {} after schedule {:?}", prog.describe(), prefix);
+		std::process::exit(3);
+	}
+	drop(targets);
+	out
+}
+
+pub fn explore_bfs_par(prog: &Program, cfg: &Cfg, hook: Option<&StateHook>) -> Outcome {
+	let mut seen: HashSet<(u64, u64)> = HashSet::new();
+	let mut outcomes: HashSet<u64> = HashSet::new();
+	let mut stats = Stats::default();
+	let mut found: Vec<Found> = vec![];
+	let mut machinery = None;
+	let mut sample = vec![];
+	let mut frontier: Vec<Vec<(u8, u16)>> = vec![vec![]];
+	let nworkers = crate::conc::workers();
+	'levels: while !frontier.is_empty() {
+		let next_idx = std::sync::atomic::AtomicUsize::new(0);
+		let results: std::sync::Mutex<Vec<(usize, ProbeOut)>> = std::sync::Mutex::new(Vec::with_capacity(frontier.len()));
+		std::thread::scope(|s| {
+			for _ in 0..nworkers.min(frontier.len()) {
+				s.spawn(|| {
+					let mut local = vec![];
+					loop {
+						let i = next_idx.fetch_add(1, std::sync::atomic::Ordering::Relaxed);
+						if i >= frontier.len() {
+							break;
+						}
+						local.push((i, probe(prog, cfg, &frontier[i], hook)));
+					}
+					results.lock().unwrap().extend(local);
+				});
+			}
+		});
+		let mut results = results.into_inner().unwrap();
+		results.sort_by_key(|r| r.0);
+		let mut next = vec![];
+		for (i, r) in results {
+			let prefix = &frontier[i];
+			stats.executions += 1;
+			if !prefix.is_empty() {
+				stats.transitions += 1;
+				stats.replays += 1;
+				stats.replay_steps += prefix.len() as u64 - 1;
+			}
+			if let Some(e) = r.error {
+				machinery = Some(e);
+				break 'levels;
+			}
+			let Some(snap) = r.snap else { continue };
+			let mut cut = false;
+			for v in snap.violations {
+				if cfg.verdict_props.is_empty() || cfg.verdict_props.iter().any(|p| p == v.prop) {
+					cut = true;
+				}
+				if !found.iter().any(|f| f.violation.key == v.key && f.violation.prop == v.prop) {
+					found.push(Found { violation: v, schedule: prefix.clone() });
+				}
+			}
+			if cut {
+				continue;
+			}
+			if !seen.insert(snap.key) {
+				continue;
+			}
+			stats.states += 1;
+			stats.max_depth = stats.max_depth.max(prefix.len());
+			if snap.any_blocked {
+				stats.blocked_states += 1;
+			}
+			if stats.states as usize > cfg.state_cap {
+				stats.cap_hit = true;
+				break 'levels;
+			}
+			if snap.enabled.is_empty() {
+				if !snap.all_finished && !cfg.no_deadlock_report {
+					found.push(Found { violation: Violation { prop: "C01", key: format!("deadlock|{}", prog.name), detail: format!("no thread is enabled but some are unfinished: {}", snap.unfinished.join("; ")) }, schedule: prefix.clone() });
+				} else {
+					stats.terminal += 1;
+					if outcomes.insert(snap.outcome_hash) {
+						stats.distinct_outcomes += 1;
+					}
+				}
+				continue;
+			}
+			if sample.len() < prefix.len() {
+				sample = prefix.clone();
+			}
+			if cfg.depth_cap > 0 && prefix.len() >= cfg.depth_cap {
+				stats.depth_cap_hits += 1;
+				continue;
+			}
+			for c in &snap.enabled {
+				let mut p = prefix.clone();
+				p.push(*c);
+				next.push(p);
+			}
+		}
+		frontier = next;
+	}
+	Outcome { stats, found, machinery, sample_schedule: sample }
 }
